@@ -22,11 +22,11 @@ def parse_family(focus, quick_n, thorough_n, maxlen=7, inputs_per=3):
 
 
 PROPS = {
-    'C01': dict(level='proof', theorem_modules=['C01', 'C09Lookahead'], min_theorems=12, tags=['C01'], crash_counts=True,
+    'C01': dict(level='proof', theorem_modules=['C01', 'C09Lookahead', 'Accepted'], min_theorems=12, tags=['C01'], crash_counts=True,
                 gen=parse_family('C01', 1500, 40000), flavours=['c'],
                 rule='random grammars (1-5 nonterminals, nullable/recursive/ambiguous/error shapes) x sampled sentences, prefixes, mutations, random strings; every input parsed at lookahead 0,1,2 with random one_parse/cost and recovery on/off; non-trivial = distinct case text with at least one judged parse',
                 assumptions=COMMON_ASSUME + ['accepts_iff_sentence is proved for lookahead level 0 (and soundness for every level); levels 1/2 are tied by the set-level correspondence and cross-level comparison']),
-    'C02': dict(level='proof', theorem_modules=['C02'], min_theorems=8, tags=['C02'], crash_counts=True,
+    'C02': dict(level='proof', theorem_modules=['C02', 'Accepted'], min_theorems=8, tags=['C02'], crash_counts=True,
                 gen=parse_family('C02', 1500, 40000), flavours=['c'],
                 rule='random grammars with random translations (permuted, partial, nil-padded, pass-through, empty); sentences <= 7 tokens; one_parse=1 cost=0; tree compared with the enumerated translations of all derivations',
                 assumptions=COMMON_ASSUME + ['depth bound of derivations (fuel (|N|+1)(n+2)) is not yet proved; enumeration capped at 3000 derivations per input']),
